@@ -53,6 +53,7 @@ pub fn instr_to_op<'a>(i: &J, t_void: u32, t_res: &dyn Fn(u64) -> wasmparser::Bl
         "op" => Operator::Call { function_index: i["k"].as_u64().unwrap() as u32 },
         "cond" => Operator::Call { function_index: N_OP + i["k"].as_u64().unwrap() as u32 },
         "probe" => Operator::Call { function_index: N_OP + N_COND + i["p"].as_u64().unwrap() as u32 },
+        "block" if i["t"] == "ref" => Operator::Block { blockty: wasmparser::BlockType::Type(wasmparser::ValType::FUNCREF) },
         "block" => Operator::Block { blockty: t_res(i["r"].as_u64().unwrap_or(0)) },
         "try" => Operator::TryTable { try_table: wasmparser::TryTable { ty: t_res(i["r"].as_u64().unwrap_or(0)), catches: vec![] } },
         "loop" => Operator::Loop { blockty: t_res(i["r"].as_u64().unwrap_or(0)) },
@@ -62,6 +63,9 @@ pub fn instr_to_op<'a>(i: &J, t_void: u32, t_res: &dyn Fn(u64) -> wasmparser::Bl
         "br" => Operator::Br { relative_depth: i["d"].as_u64().unwrap() as u32 },
         "br_if" => Operator::BrIf { relative_depth: i["d"].as_u64().unwrap() as u32 },
         "bron" => Operator::BrOnNull { relative_depth: i["d"].as_u64().unwrap() as u32 },
+        "bronn" => Operator::BrOnNonNull { relative_depth: i["d"].as_u64().unwrap() as u32 },
+        "brc" => Operator::BrOnCast { relative_depth: i["d"].as_u64().unwrap() as u32, from_ref_type: wasmparser::RefType::FUNCREF, to_ref_type: wasmparser::RefType::FUNCREF.as_non_null() },
+        "brcf" => Operator::BrOnCastFail { relative_depth: i["d"].as_u64().unwrap() as u32, from_ref_type: wasmparser::RefType::FUNCREF, to_ref_type: wasmparser::RefType::FUNCREF.as_non_null() },
         "rnull" => Operator::RefNull { hty: wasmparser::HeapType::FUNC },
         "rfunc" => Operator::RefFunc { function_index: 0 },
         "return" => Operator::Return,
@@ -86,6 +90,7 @@ fn enc_instr(i: &J, f: &mut wasm_encoder::Function) {
         "op" => f.instruction(&I::Call(i["k"].as_u64().unwrap() as u32)),
         "cond" => f.instruction(&I::Call(N_OP + i["k"].as_u64().unwrap() as u32)),
         "probe" => f.instruction(&I::Call(N_OP + N_COND + i["p"].as_u64().unwrap() as u32)),
+        "block" if i["t"] == "ref" => f.instruction(&I::Block(wasm_encoder::BlockType::Result(wasm_encoder::ValType::FUNCREF))),
         "block" => f.instruction(&I::Block(bt(i["r"].as_u64().unwrap_or(0)))),
         "try" => f.instruction(&I::TryTable(bt(i["r"].as_u64().unwrap_or(0)), std::borrow::Cow::Borrowed(&[]))),
         "loop" => f.instruction(&I::Loop(bt(i["r"].as_u64().unwrap_or(0)))),
@@ -95,6 +100,9 @@ fn enc_instr(i: &J, f: &mut wasm_encoder::Function) {
         "br" => f.instruction(&I::Br(i["d"].as_u64().unwrap() as u32)),
         "br_if" => f.instruction(&I::BrIf(i["d"].as_u64().unwrap() as u32)),
         "bron" => f.instruction(&I::BrOnNull(i["d"].as_u64().unwrap() as u32)),
+        "bronn" => f.instruction(&I::BrOnNonNull(i["d"].as_u64().unwrap() as u32)),
+        "brc" => f.instruction(&I::BrOnCast { relative_depth: i["d"].as_u64().unwrap() as u32, from_ref_type: wasm_encoder::RefType::FUNCREF, to_ref_type: wasm_encoder::RefType { nullable: false, heap_type: wasm_encoder::HeapType::FUNC } }),
+        "brcf" => f.instruction(&I::BrOnCastFail { relative_depth: i["d"].as_u64().unwrap() as u32, from_ref_type: wasm_encoder::RefType::FUNCREF, to_ref_type: wasm_encoder::RefType { nullable: false, heap_type: wasm_encoder::HeapType::FUNC } }),
         "rnull" => f.instruction(&I::RefNull(wasm_encoder::HeapType::FUNC)),
         "rfunc" => f.instruction(&I::RefFunc(0)),
         "br_table" => {
@@ -270,6 +278,9 @@ pub fn decode_body(bytes: &[u8]) -> Result<(Vec<J>, Vec<String>), String> {
                         Operator::Br { relative_depth } => json!({"o":"br","d":relative_depth}),
                         Operator::BrIf { relative_depth } => json!({"o":"br_if","d":relative_depth}),
                         Operator::BrOnNull { relative_depth } => json!({"o":"bron","d":relative_depth}),
+                        Operator::BrOnNonNull { relative_depth } => json!({"o":"bronn","d":relative_depth}),
+                        Operator::BrOnCast { relative_depth, .. } => json!({"o":"brc","d":relative_depth}),
+                        Operator::BrOnCastFail { relative_depth, .. } => json!({"o":"brcf","d":relative_depth}),
                         Operator::RefNull { .. } => json!({"o":"rnull"}),
                         Operator::RefFunc { function_index } => {
                             if fnames.get(*function_index as usize).map(|n| n == "op0").unwrap_or(false) {
